@@ -1,14 +1,26 @@
 #!/venv/bin/python
 """C06 - subgraph matching is sound, complete and symmetry-reduced.
 
-Reference model: lean/VermouthModel/Iso.lean (shared) + C06.lean; theorems:
-lean/VermouthProps/C06.lean.  ISMAGS is NOT transcribed: the real
-vermouth.ismags.ISMAGS is compared with the verified reference enumerator /
-class checker / MCIS through the driver, and an independent Python brute
-force (different algorithm for the classes: canonical representatives) states
-the property on every real result.
+Two layers (see harness/manifest_parts/C06.json):
 
-Queries (one protocol line each, the real output is part of the `sym`/`lcssym` lines):
+(1) TRANSCRIPTION of the search core of vermouth/ismags.py: lean/VermouthModel/C06_Ismags.lean
+    (_find_nodecolor_candidates, _get_lookahead_candidates, _edges_of_same_color, intersect, _map_nodes,
+    find_isomorphisms, _remove_node, _largest_common_subgraph, largest_common_subgraph, _make_constraints),
+    theorems lean/VermouthProps/C06_Ismags.lean, C06_IsmagsLcs.lean, C06_IsmagsSym.lean.  Tie = output for output:
+      tcand   _find_nodecolor_candidates() / _get_lookahead_candidates() of a fresh matcher
+      tiso0/1 find_isomorphisms(symmetry=False/True): the model is fed the constraints the real call made (recorded by
+              wrapping _make_constraints); outputs compared as SORTED lists with multiplicity (the yield order depends on
+              CPython's set iteration order, which the model does not reproduce)
+      tlcs0/1 largest_common_subgraph(symmetry=False/True), constraints in the iteration order of the real set object
+      tcons   _make_constraints on the cosets the real call used
+      tvalid  the constraints of the real call are the stabiliser-chain orbits of the pattern (verified checker
+              constraintsValidB = hypothesis of theorem ismags_find_one_per_class); analyze_symmetry itself is NOT transcribed
+(2) Verified REFERENCE lean/VermouthModel/Iso.lean (shared) + C06.lean; theorems lean/VermouthProps/C06.lean: the real
+    vermouth.ismags.ISMAGS is compared with the reference enumerator / class checker / MCIS through the driver, and an
+    independent Python brute force (different algorithm for the classes: canonical representatives) states the property
+    on every real result.
+
+Reference queries (one protocol line each, the real output is part of the `sym`/`lcssym` lines):
   iso    find_isomorphisms(symmetry=False)        == allIsos (as sorted lists)
   sym    find_isomorphisms(symmetry=True)         oneRepPerClass out (allIsos) = true
   lcs    largest_common_subgraph(symmetry=False)  == allMCIS
@@ -19,7 +31,7 @@ Queries (one protocol line each, the real output is part of the `sym`/`lcssym` l
 Besides single calls on fresh matchers there are HISTORIES (the property is about every call):
 several calls in random order on one matcher object, and matchers for several pairs that share
 one symmetry `cache` dict (as repair_graph shares it across residues); every answer in a history
-is compared with the reference exactly as if it had been computed alone.
+is compared with the reference and with the transcription exactly as if it had been computed alone.
 """
 import itertools
 from common import *
@@ -56,9 +68,10 @@ chk.extra['rule'] = ('graph pairs: exhaustive small graphs (graph atlas, random 
                      'random sparse pairs for the common-subgraph search, corpus; call histories (2-5 calls on one matcher object; 2-4 matchers sharing one symmetry cache with patterns of equal keys/edges/label-class sizes); node keys non-contiguous, 1-3 '
                      'node colours, 1-2 edge colours. A case is non-trivial if the pattern has >= 3 nodes and '
                      '(>= 1 isomorphism / common subgraph of >= 2 nodes was found or |Aut(pattern)| > 1); '
-                     'distinct = distinct protocol line')
+                     'distinct = distinct protocol line. Every call is also replayed on the TRANSCRIPTION (ops tcand/tiso/tlcs/tcons/tvalid) with the constraints the real call made')
 chk.trusted.append('harness/c06.py: graph encoding, canonicalisation of mappings, Python brute-force oracle')
-chk.lean(['VermouthProps.C06', 'VermouthProps.C06_Ismags', 'VermouthProps.C06_IsmagsLcs', 'VermouthProps.C06_IsmagsSym'], 'driver_c06')
+chk.lean(['VermouthProps.C06_All'], 'driver_c06')
+chk.extra['lean_build_and_audit_s'] = round(chk.elapsed(), 1)
 
 import networkx as nx
 from vermouth.ismags import ISMAGS
@@ -284,6 +297,7 @@ def call_iso(cid, P, ism, symmetry, alias=False, ctx=''):
     nontriv = len(sg) >= 3 and (len(full) >= 1 or naut > 1)
     errs = []
     rec = ConstraintRecorder(ism)
+    calls = CallRecorder(ism, False)
     try:
         it = ism.subgraph_isomorphisms_iter(symmetry=symmetry) if alias else ism.find_isomorphisms(symmetry=symmetry)
         raw = list(it)
@@ -292,6 +306,7 @@ def call_iso(cid, P, ism, symmetry, alias=False, ctx=''):
         errs.append('exception %s: %s' % (type(e).__name__, e))
     cosets_used = rec.cosets
     cons = rec.take()
+    choices = calls.take()
     out = []
     for d in raw:
         inv = {s: t for t, s in d.items()}
@@ -372,6 +387,10 @@ def call_iso(cid, P, ism, symmetry, alias=False, ctx=''):
     # on CPython's set iteration order)
     add('%s-tiso%d' % (cid, int(symmetry)), line('tiso', P.edge_none, P.gn, P.ge, P.sn, P.se, cons),
         enc([list(m) for m in sorted(out)]), [], nontriv)
+    if choices is not None:
+        # ... and, replayed with the next-node choices recorded from the real run, in the same ORDER
+        add('%s-qiso%d' % (cid, int(symmetry)), line('qiso', P.edge_none, P.gn, P.ge, P.sn, P.se, cons) + ' ' + choices,
+            enc([list(m) for m in out]), [], nontriv)
 
 
 def call_lcs(cid, P, ism, symmetry, ctx=''):
@@ -382,12 +401,14 @@ def call_lcs(cid, P, ism, symmetry, ctx=''):
     pos = {p: i for i, p in enumerate(order)}
     errs = []
     rec = ConstraintRecorder(ism)
+    calls = CallRecorder(ism, True)
     try:
         raw = list(ism.largest_common_subgraph(symmetry=symmetry))
     except Exception as e:  # noqa
         raw = []
         errs.append('exception %s: %s' % (type(e).__name__, e))
     cons = rec.take()
+    choices = calls.take()
     out = []
     for d in raw:
         inv = {s: t for t, s in d.items()}
@@ -399,6 +420,9 @@ def call_lcs(cid, P, ism, symmetry, ctx=''):
     # the real call, in the iteration order of the real constraints set: same mappings, same multiplicities
     add('%s-tlcs%d' % (cid, int(symmetry)), line('tlcs', P.gn, P.ge, P.sn, P.se, cons),
         enc([[list(pt) for pt in m] for m in sorted(out, key=lambda m: [x for pt in m for x in pt])]), [], nontriv)
+    if choices is not None:
+        add('%s-qlcs%d' % (cid, int(symmetry)), line('qlcs', P.gn, P.ge, P.sn, P.se, cons) + ' ' + choices,
+            enc([[list(pt) for pt in m] for m in out]), [], nontriv)
     if not out:
         # nothing in common is reported as "no result"; the reference reports the empty map
         chk.count('lcs_no_result')
@@ -428,6 +452,52 @@ def call_lcs(cid, P, ism, symmetry, ctx=''):
             impl, errs, nontriv)
 
 
+REC_CAP = 1500
+
+
+class CallRecorder:
+    """records, for every call of the real ISMAGS._map_nodes during one call of the matcher, the search node
+    (mapping made so far, nodes left to map) and the pattern node the call was started with: the outcome of the
+    code's `min(left_to_map, key=...)`, which depends on CPython's set iteration order.  The driver replays the
+    transcription with these choices (each checked to be a possible result of that min) and the yield
+    SEQUENCES are compared."""
+
+    def __init__(self, ism, with_left):
+        self.rec = []
+        self.n = 0
+        self.with_left = with_left
+        self.orig = ISMAGS._map_nodes.__get__(ism)
+        ism._map_nodes = self
+
+    def __call__(self, sgn, candidates, constraints, mapping=None, to_be_mapped=None):
+        self.n += 1
+        if self.n <= REC_CAP:
+            self.rec.append((tuple(mapping.items()) if mapping else (), to_be_mapped, sgn))
+        return self.orig(sgn, candidates, constraints, mapping=mapping, to_be_mapped=to_be_mapped)
+
+    def take(self):
+        """the records as one protocol token (encoded here: they are the bulk of the protocol), or None when there
+        were more than REC_CAP calls.  A record is [mapping, left, sgn]; `left` is omitted when to_be_mapped was
+        not wanted (find_isomorphisms: to_be_mapped is always the whole pattern)."""
+        if self.n > REC_CAP:
+            chk.count('recorded_run_skipped_cap')
+            return None
+        chk.count('recorded_choices', self.n)
+        if not self.rec:
+            return '[ ]'
+        parts = []
+        for m, tbm, sgn in self.rec:
+            ms = '[ ' + ' '.join(['[ %d %d ]' % kv for kv in sorted(m)]) + ' ]' if m else '[ ]'
+            if not self.with_left:
+                parts.append('[ %s %d ]' % (ms, sgn))
+            else:
+                keys = {k for k, _ in m}
+                left = sorted(n for n in tbm if n not in keys)
+                ls = '[ ' + ' '.join(map(str, left)) + ' ]' if left else '[ ]'
+                parts.append('[ %s %s %d ]' % (ms, ls, sgn))
+        return '[ ' + ' '.join(parts) + ' ]'
+
+
 def call_cand(cid, P):
     """_find_nodecolor_candidates / _get_lookahead_candidates of a fresh matcher against their transcriptions"""
     if not len(P.sg) or not len(P.g):
@@ -440,6 +510,10 @@ def call_cand(cid, P):
     except Exception as e:  # noqa
         impl = 'exception %s' % type(e).__name__
     chk.count('lookahead_prunes=%s' % any(len(la.get(u, ())) < len(P.g) for u in P.order))
+    gnc = {ncol(P.g, n) for n in P.g}
+    gec = {dd.get('c', 0) for _, _, dd in P.g.edges(data=True)}
+    if any(ncol(P.sg, n) not in gnc for n in P.sg) or any(dd.get('c', 0) not in gec for _, _, dd in P.sg.edges(data=True)):
+        chk.count('pattern_colour_absent_from_graph_edgeNone=%d' % P.edge_none)   # the `except KeyError: pass` of the look-ahead
     add('%s-tcand' % cid, line('tcand', P.edge_none, P.gn, P.ge, P.sn, P.se), impl, [], len(P.sg) >= 3)
 
 
@@ -919,7 +993,11 @@ for i in range(N):
     run_object_history('object-%d' % i, g, sg, calls, explicit=(i % 3 == 0))
 
 # ---- model side ------------------------------------------------------------------
+_t_drv = time.time()
+chk.extra['protocol_MB'] = round(sum(len(l) for l in lines) / 1e6, 1)
 models = chk.drv.ask(lines) if chk.lean_ok else [None] * len(lines)
+chk.extra['driver_s'] = round(time.time() - _t_drv, 1)
+chk.extra['real_code_and_oracle_s'] = round(_t_drv - chk.t0, 1)
 for (cid, ln, impl, errs, nontriv, finding), mo in zip(pending, models):
     kind = cid.rsplit('-', 1)[1]
     chk.count('query_' + kind)
